@@ -287,6 +287,121 @@ class _PView:
       yield box[0]
 
 
+class PList:
+  """Event-producing view of a real list (the list itself stays the one Gin uses)."""
+
+  def __init__(self, name, real):
+    self._pname, self._real = name, real
+
+  def _run(self, ev, fn):
+    i = CTL.begin(ev)
+    try:
+      return fn()
+    finally:
+      CTL.end(i, ev)
+
+  def append(self, x):
+    ev = Event(self._pname, 'push', None)
+    def fn():
+      ev.writes = {'top': tok(x)}
+      self._real.append(x)
+    return self._run(ev, fn)
+
+  def pop(self, *a):
+    ev = Event(self._pname, 'pop_top', None)
+    def fn():
+      ev.writes = {'top': None}
+      return self._real.pop(*a)
+    return self._run(ev, fn)
+
+  def __getitem__(self, idx):
+    if isinstance(idx, slice):
+      ev = Event(self._pname, 'read_all', None)
+      def fn():
+        ev.obs = tuple(tok(x) for x in self._real)
+        return self._real[idx]
+      return self._run(ev, fn)
+    ev = Event(self._pname, 'read_top' if idx == -1 else 'read_at', repr(idx))
+    def fn():
+      r = self._real[idx]
+      ev.obs = tok(r)
+      return r
+    return self._run(ev, fn)
+
+  def __len__(self):
+    return len(self._real)
+
+  def __iter__(self):
+    return iter(self._real[:])
+
+
+_PLISTS = {}
+
+
+def tap_instance_lists(cls, attr_names):
+  """Makes reads of the named list attributes on instances of `cls` return PList
+  views named after the identity of the list the reading thread actually got -
+  this is what tells a per-thread (threading.local) list from a shared one."""
+  base_get = None
+  for b in cls.__mro__[1:]:
+    if '__getattribute__' in vars(b):
+      base_get = vars(b)['__getattribute__']
+      break
+  had = vars(cls).get('__getattribute__')
+
+  def tapped(self, name):
+    v = base_get(self, name) if had is None else had(self, name)
+    if name in attr_names and type(v) is list and CTL.mode != 'off' and CTL.me() is not None:
+      key = id(v)
+      p = _PLISTS.get(key)
+      if p is None or p._real is not v:
+        p = PList('%s.%s#%d' % (cls.__name__, name, len(_PLISTS)), v)
+        p._init = tuple(tok(x) for x in v)
+        p._attr = '%s.%s' % (cls.__name__, name)
+        _PLISTS[key] = p
+      return p
+    return v
+
+  cls.__getattribute__ = tapped
+
+  def undo():
+    if had is None:
+      del cls.__getattribute__
+    else:
+      cls.__getattribute__ = had
+  return undo
+
+
+def canonical_list_names(logs):
+  """Renames list objects after a run: a list touched by one thread is
+  '<attr>@T<i>#<k>', a list touched by several threads '<attr>@shared#<k>'.
+  Returns {new name: initial contents}."""
+  users = {}
+  for i, tr in logs.items():
+    for ev in tr:
+      users.setdefault(ev.obj, [])
+      if i not in users[ev.obj]:
+        users[ev.obj].append(i)
+  rename, init = {}, {}
+  counters = {}
+  for p in sorted(_PLISTS.values(), key=lambda q: q._pname):
+    u = users.get(p._pname)
+    if not u:
+      continue
+    tag = 'T%d' % u[0] if len(u) == 1 else 'shared'
+    k = counters.get((p._attr, tag), 0)
+    counters[(p._attr, tag)] = k + 1
+    new = '%s@%s#%d' % (p._attr, tag, k)
+    rename[p._pname] = new
+    init[new] = p._init
+  for tr in logs.values():
+    for ev in tr:
+      if ev.obj in rename:
+        ev.obj = rename[ev.obj]
+  _PLISTS.clear()
+  return init
+
+
 class PLock:
   """Wrapper around a real lock; acquire/release by registered threads are events."""
 
